@@ -88,6 +88,11 @@ PROPOSED_FINDINGS = [
                    "and set(r['source_kinds'])<={'port','wire','instance','clock','param'}",
      "witness": {"design": "structural block with ports a, load, r and addParameter('a', 1)", "emitted": "module ParamMid #( parameter a) ( input clk, input [7:0] a, …"},
      "what": "parameter names share the module name space with ports, w_-prefixed wires, i_-prefixed instances and the implicit clock but are emitted verbatim: a parameter named like a port / `clk` / `w_<wire>` / `i_<instance>` is declared twice"},
+    {"id": "C03-param-chain-repr", "property": "C03", "status": "known", "anchor": "py4hw/base.py:74",
+     "class_expr": "r.get('kind')=='parse' and r.get('python_repr')==['py4hw.base.Parameter']",
+     "witness": {"design": "Outer(addParameter('BASE',1)) -> Mid(addParameter('START', outer.getParameter('BASE'))) -> ShiftLeftConstant(n = mid.getParameter('START'))",
+                 "emitted": "assign w_t0 = a << <py4hw.base.Parameter object at 0x7f…>;"},
+     "what": "getParameterValue resolves a forwarded parameter by ONE level only: a parameter forwarded through two structural levels reaches an inlined primitive (ShiftLeft/RightConstant) as a Parameter object and its Python repr is written into the text"},
     {"id": "C03-transpiler-ternary", "property": "C03", "status": "known", "anchor": "py4hw/transpilation/python2verilog_transpilation.py:552",
      "class_expr": "r.get('kind')=='parse' and r.get('has_ifexp') and r.get('kw_in_msg')=='if'",
      "witness": {"design": "self.y = 1 if self.a.get() > 2 else 2", "emitted": "y=if (a>2) begin 1 end else begin 2 end ;"},
@@ -298,7 +303,8 @@ class Pipeline:
             fail(res, f'emitted text does not parse: {msg[:120]}',
                  dict(kind='parse', msg=msg[:300], kw_in_msg=m.group(1) if m else None, verbatim_keywords=vk,
                       kw_in_ctx=sorted(set(s[1] for s in vk if re.search(r'(^|\W)%s(\W|$)' % re.escape(s[1]), msg))),
-                      has_ifexp=any(is_transpiled(g, o) and has_ifexp(o) for _, o in cnames), text=ctext[:1500], **label))
+                      has_ifexp=any(is_transpiled(g, o) and has_ifexp(o) for _, o in cnames),
+                      python_repr=sorted(set(re.findall(r'<([\w\.]+) object at 0x', ctext))), text=ctext[:1500], **label))
             res.hist('parse', 'error')
             return None
         res.hist('parse', 'ok')
@@ -728,6 +734,8 @@ def stream_params(pipe, res, rng, tier):
             for pn in (['INIT', 'START', outer] if not q or outer in ('BASE', 'INIT') else ['START']):
                 for fwd in (True, False):
                     add(w=w, pname=pn, modes=('forward', 'literal', 'comb'), levels=2, outer=outer, forward=fwd)
+                    if outer == 'BASE':
+                        add(w=w, pname=pn, modes=('shift', 'forward'), levels=2, outer=outer, forward=fwd)
         pipe.maybe_flush()
 
 
